@@ -92,6 +92,15 @@ CHECKS = {
         "collector once rendering has started, never used after finalization, and the iterator must be closed afterwards.",
         note="Finalization is observed through the subject's own _finalize_render_data_ / _render_ (tokens in its _Data_ namespace); CPython reference counting assumed for the drop-reference scenario.",
     ),
+    "C03": dict(
+        level="exploration",
+        technique="runtime monitor: strict kitty / iTerm2 protocol tokenizers over every render + decoded-pixel oracle (identity arrays / PIL BOX), chunk-boundary sweep",
+        text="Every kitty render is tokenized (control keys on the first chunk only, chunk <= 4096 and multiple of 4 unless last, m flags, "
+        "payload length = s*v*bytes-per-pixel after inflation, LINES strips stitched) and every iterm2 render checked for size=, cell keys, "
+        "decodable PNG/JPEG payload or untouched file bytes under the read-from-file rules; pixels compared with the expected image; payload "
+        "lengths swept across the 4096-character chunk boundaries for compression levels 0,1,4,9.",
+        note="Trusts vf/proto.py (protocol documents), PIL decoders and convert/resize(BOX)/alpha_composite for non-identity cases; JPEG judged against PIL's own codec at the effective quality.",
+    ),
 }
 
 NOT_APPLICABLE = {
